@@ -64,6 +64,25 @@ func runThreshold(t *testing.T, rc *RunCtx) {
 		})
 		rc.Stats.Inc("probe_decoy_account", 1)
 	}
+	// Swarm variant: the validator already has history on every instance (an earlier attestation and block,
+	// below the conflicting duties): the duties are then not the first thing its shares sign after start-up.
+	if ch.Pick(2, 0) == 1 {
+		s.Direct(func() {
+			for _, nd := range c.Nodes {
+				wa, wp := AttEntry(0, 1, 2, 555), PropEntry(0, 1, 556)
+				wa.AddrPath, wp.AddrPath = path, path
+				ra := (&Op{Kind: "att", Client: "client1", Entries: []Entry{wa}}).Exec(nd.Inst)
+				rp := (&Op{Kind: "prop", Client: "client1", Entries: []Entry{wp}}).Exec(nd.Inst)
+				if !ra.OK(0) || !rp.OK(0) {
+					rc.Violate("HARNESS", "setup-history-refused", fmt.Sprintf("%s: %v %v", nd.Name, ra.States, rp.States), s.Step)
+				}
+			}
+		})
+		rc.Stats.Inc("probe_validator_with_earlier_history", 1)
+		if len(rc.Viol) > 0 {
+			return
+		}
+	}
 	// The two conflicting duties.
 	var A, B Entry
 	kind := "att"
